@@ -19,7 +19,7 @@ func init() {
 		ID:    "C04",
 		Level: "exploration",
 		Rule: "random Muxer histories over Add/Remove/SetPCRPID/WriteTables/WriteData/WritePacket with valid and rejected arguments (unknown PID, duplicate PID, oversize WritePacket payload / adaptation field, " +
-			"invalid PCR PID, PMT too large for one packet), payload sizes around every packet boundary, first-packet adaptation fields leaving 0,1,2,few,many bytes, retransmit periods 1..50, plus an exhaustive " +
+			"invalid PCR PID, PMT too large for one packet), payload sizes around every packet boundary, first-packet adaptation fields leaving 0,1,2,few,many bytes, retransmit periods 1..50, edge-of-contract PES optional headers in a quarter of the histories, plus an exhaustive " +
 			"WritePacket size grid; after every call the bytes that reached the writer tap are judged by the independent packet decoder; distinct = hash of the output bytes; non-trivial = ≥1 rejected and ≥1 accepted call or ≥3 packets",
 		Assumptions: []string{"writer tap accepts everything (I/O failures are C18's subject)", "WritePacket traffic uses PIDs the Muxer does not own"},
 		Shards:      32,
@@ -80,9 +80,9 @@ func runMuxStruct(c *mon.Ctx, prop string) {
 		if i%8 == 0 {
 			ops = readdAutoScenario(r)
 		}
-		if prop == "C05" && i%4 == 1 {
+		if i%4 == 1 {
 			// PES headers at the edge of the write contract (forbidden or unsupported flag combinations, out-of-range values): whether
-			// the Muxer accepts or refuses such a unit, the counters of the packets that do reach the output must stay gapless
+			// the Muxer accepts or refuses such a unit, what reaches the output must be whole packets with gapless counters
 			c.Add("data_calls_with_edge_headers", int64(edgeHeaders(r, ops)))
 		}
 		hr := runHistory(ops, period)
